@@ -26,7 +26,7 @@ def gen_episode(rng, long=False):
         ej = 1 if (not ejected and rng.random() < 0.1) else 0
         ejected = ejected or ej == 1
         f = lambda v: v if v in ("none",) else (enc(v) if v != "-" else "-")
-        ops.append("id req %s %s %s %d %d" % (f(rid), f(tr), key, blen, ej))
+        ops.append("id req %s %s %s %d %d%s" % (f(rid), f(tr), key, blen, ej, rng.choice([" upg", " own"]) if rng.random() < 0.2 else ""))
     if rng.random() < 0.35:
         # concurrent generation: identifiers handed out at the same instant must differ
         ops.append("id burst %d %d" % (rng.choice([200, 2000, 5000] if not long else [2000, 20000, 100000]), rng.choice([2, 8, 16])))
